@@ -198,7 +198,7 @@ pub fn random_tree(rng: &mut Rng, names: &[&str], attrs: &[&str], depth: usize, 
     let text = if rng.chance(1, 3) { 1 + rng.below(2) as u8 } else { 0 };
     let mut kids = Vec::new();
     if depth > 0 {
-        let n = rng.below(4);
+        let n = rng.below(if *budget > 9 { 7 } else { 4 });
         for _ in 0..n {
             if *budget == 0 {
                 break;
